@@ -100,6 +100,18 @@ CLAIMS = {
              "over received bytes) and f440141 (segmentation bit kept). Known finding F09b: P/F attribute of SNRM/UA/DISC/RR is not on the wire.",
         technique="Coq proof (layout, acceptance soundness) + correspondence + exhaustive single-fault enumeration",
         design="4/C09"),
+    "C15": dict(
+        text="Coq theorems (axiom-free) for buffers of any number of rows and columns, any null pattern, clock columns "
+             "anywhere: one row per entry, one cell per capture object, every cell bound to the index of its own column "
+             "(induction over rows and cells); a row of the wrong width is refused; cell contents follow the stated rule "
+             "(transmitted value; decoded timestamp; null clock cell = running timestamp + capture period, or nothing "
+             "before any timestamp was seen); and for all 256 access-mode bytes exactly the rights whose bits are set are "
+             "listed (kernel sweep). Tie: AccessRight/CosemInterface members regenerated from the source; correspondence "
+             "through parse_entries and parse_bytes incl. month/year roll-over of the timestamp arithmetic, and on object lists.",
+        note="datetime + timedelta is modelled (proleptic Gregorian day count) and compared with CPython on every run; "
+             "with several clock columns the running timestamp is shared (stated as such). Model follows fix commit 0ddd61b.",
+        technique="Coq proof (induction over rows/cells + kernel sweep) + translator + correspondence",
+        design="4/C15"),
     "C11": dict(
         text="Coq theorems (axiom-free) over the generated transition table and the guards of HdlcConnection: every step "
              "the link accepts (send or receive, any of the six states, any frame kind) is an edge of the NRM client "
